@@ -32,3 +32,36 @@ package mqtt
 //@   ensures[C19] err == nil ==> result == nil
 //@   ensures[C19] err == io.EOF ==> result == io.EOF
 //@   ensures[C19] err != nil && err != io.EOF ==> asError(result) != nil && fresh(asError(result)) && asError(result).Err == err
+
+// ---- (*Error) accessors (C19) ----
+
+//@ func (*Error).Unwrap
+//@   mode int
+//@   props C19
+//@   requires e != nil
+//@   assigns nothing
+//@   ensures[C19] cause: result == e.Err
+
+//@ func (*Error).Is
+//@   mode int
+//@   props C19
+//@   requires e != nil
+//@   assigns nothing
+//@   note error values on the chain have comparable dynamic types (pointers, sentinels): comparing interface values does not panic
+//@   loop 1 invariant target != nil && (e.Err == target ==> err == e.Err) && (e.Err == nil ==> err == nil)
+//@   ensures[C19] self: target == error(e) ==> result
+//@   ensures[C19] nil_target: target == nil ==> result == (e.Err == nil)
+//@   ensures[C19] direct_cause: target != nil && e.Err == target ==> result
+//@   ensures[C19] no_cause: target != nil && target != error(e) && e.Err == nil ==> !result
+
+//@ spec
+//@ func asReqTimeout(e error) *RequestTimeoutError { r, _ := e.(*RequestTimeoutError); return r }
+//@ end
+
+//@ func (*requestContext).Err
+//@   mode int
+//@   props C18 C19
+//@   requires c != nil && c.Context != nil
+//@   assigns nothing
+//@   ensures[C18,C19] timeout_error: asReqTimeout(result) != nil && fresh(asReqTimeout(result)) &&
+//@        evCount("context.Context.Err") == 1 && evArg[context.Context]("context.Context.Err", 0, 0) == c.Context && asReqTimeout(result).error == evRet[error]("context.Context.Err", 0, 0)
